@@ -62,7 +62,38 @@ def meaning(stream, w):
     return ev
 
 
-def run_decoder(facts, summaries, stream, gap, w=16, maxcycles=4000):
+def timer_constants(summ, attr):
+    """constants a state attribute is compared with in a clock() summary"""
+    out = set()
+
+    def walk(x):
+        if isinstance(x, tuple):
+            if len(x) == 4 and x[0] == 'cmp':
+                for a, b in ((x[2], x[3]), (x[3], x[2])):
+                    if not (isinstance(b, tuple) and b[0] == 'c' and isinstance(b[1], int)):
+                        continue
+                    if a == ('attr', attr):
+                        out.add(b[1])
+                    elif isinstance(a, tuple) and a[0] == 'bin' and a[1] in '+-':       # (attr + d) == K,  (attr - d) == K,  (d + attr) == K
+                        l, r = a[2], a[3]
+                        if l == ('attr', attr) and r[0] == 'c' and isinstance(r[1], int):
+                            out.add(b[1] - r[1] if a[1] == '+' else b[1] + r[1])
+                        elif r == ('attr', attr) and l[0] == 'c' and isinstance(l[1], int) and a[1] == '+':
+                            out.add(b[1] - l[1])
+            for y in x:
+                walk(y)
+        elif isinstance(x, (list, dict)):
+            for y in (x.values() if isinstance(x, dict) else x):
+                walk(y)
+    walk([summ.state, summ.prepares, summ.stores])
+    return out
+
+
+def run_decoder(facts, summaries, stream, gap, w=16, maxcycles=4000, pause_after=None, report=None):
+    """pause_after=k: after the k-th character has been taken and the decoder waits again (ready, no character offered), the pause is analysed:
+    one idle edge that leaves the whole state and every output unchanged is a fixpoint, so a pause of any length is equivalent to it; a state
+    attribute that moves by a constant while waiting is a timer, and the run is continued from the states in which the timer meets each
+    constant it is compared with (reachable by waiting long enough), so that a timeout is met whatever its length."""
     D, ws = build_req(facts, summaries, w)
     queue = list(stream)
     wait = 0
@@ -83,6 +114,39 @@ def run_decoder(facts, summaries, stream, gap, w=16, maxcycles=4000):
             D.put(ws['c'], 0)
         D.settle()
         transfer = D.get(ws['valid']) == 1 and D.get(ws['ready']) == 1
+        if pause_after is not None and consumed == pause_after and not transfer and D.get(ws['ready']) == 1 and D.get(ws['valid']) == 0:
+            pause_after = None
+            leaf = D.seq[0]
+            for rep in range(40):
+                before = (dict(leaf.cfg.attr), dict(D.values))
+                D.clock()
+                D.settle()
+                if D.get(ws['ready']) != 1:
+                    report['left-waiting'] = True
+                    break
+                changed = {a: (before[0].get(a), v) for a, v in leaf.cfg.attr.items() if before[0].get(a) != v}
+                wchanged = [k for k, v in D.values.items() if before[1].get(k) != v]
+                if not changed and not wchanged:
+                    report['fixpoint'] = report.get('fixpoint', 0) + 1
+                    break
+                timers = {a: nv - ov for a, (ov, nv) in changed.items() if isinstance(ov, int) and isinstance(nv, int)}
+                if len(timers) != len(changed) or wchanged:
+                    report['moving'] = sorted(changed) + ['wire'] * len(wchanged)
+                    break
+                # accelerate: jump each timer to just before the nearest constant it is compared with (reachable by waiting)
+                jumped = False
+                for a, dlt in timers.items():
+                    cur = leaf.cfg.attr[a]
+                    ks = sorted(k for k in timer_constants(leaf.csum, a) if (k - cur) * dlt > 0 and (k - cur) % dlt == 0 and abs(k - cur) > abs(dlt))
+                    if dlt < 0:
+                        ks.reverse()
+                    if ks:
+                        report.setdefault('timers', {})[a] = ks[0]
+                        leaf.cfg.attr[a] = ks[0] - dlt
+                        jumped = True
+                if not jumped:
+                    report['timers-exhausted'] = True
+                    break
         D.clock()
         if transfer:
             queue.pop(0)
@@ -106,7 +170,7 @@ def run_decoder(facts, summaries, stream, gap, w=16, maxcycles=4000):
     return events, consumed, len(queue)
 
 
-STREAMS = ['IC=', 'KD;', 'CDCD!', 'OD?', 'I9=0C!', '89AB!CDEF!', '0123!4567!', 'I2=', 'A5!', 'I1=7F!', 'O1?', 'K3;', 'K0;', 'I0=5!I1=FF!', 'I2=O1?A5A5!', 'IA=BEEF!O3?K2;', 'K1;K2;', 'I10=1234!', 'O0?O1?']
+STREAMS = ['I2=5!7!', '12!34!', 'I3=9!A!B!', 'IC=', 'KD;', 'CDCD!', 'OD?', 'I9=0C!', '89AB!CDEF!', '0123!4567!', 'I2=', 'A5!', 'I1=7F!', 'O1?', 'K3;', 'K0;', 'I0=5!I1=FF!', 'I2=O1?A5A5!', 'IA=BEEF!O3?K2;', 'K1;K2;', 'I10=1234!', 'O0?O1?']
 
 
 def check_decoder(ctx, facts, tier, seed):
@@ -144,11 +208,34 @@ def check_decoder(ctx, facts, tier, seed):
                               witness=dict(stream=stream, idle_cycles_between_characters=gap, observed=ev[:12], expected=exp[:12]))
                 return
         ctx.ok('C20.a', 'stream:%s' % stream, 'pacings 0,1,2: %d action pulses as expected' % len(meaning(stream, 16)), grade='bounded')
+    # pauses of arbitrary length inside a command (C20.c)
+    nfix = npause = 0
+    for stream in ('I12=', '1234!', 'O1F?', 'K12;', 'I1=7F!'):
+        for k in range(1, len(stream)):
+            rep = {}
+            try:
+                ev, consumed, left = run_decoder(facts, summaries, stream, 12, pause_after=k, report=rep)
+            except (EvalError, Nondet, NetError) as e:
+                ctx.violation('C20.c', 'pause:%s@%d' % (stream, k), 'the decoder summary fails during a long pause: %s' % e, where, witness=dict(stream=stream, pause_after_character=k))
+                continue
+            if not rep:
+                ctx.error('C20.c', 'the decoder never waited for a character during the pause of stream %r after character %d' % (stream, k))
+                continue
+            npause += 1
+            nfix += 1 if rep.get('fixpoint') and not rep.get('timers') else 0
+            exp = meaning(stream, 16)
+            if ev != exp or left or consumed != len(stream):
+                ctx.violation('C20.c', 'pause-inside-command', 'a pause of the producer inside a command changes what is decoded: a waiting-time counter (%s) reaches the constant it is compared with' %
+                              ', '.join('%s == %d' % kv for kv in sorted(rep.get('timers', {}).items())), where,
+                              witness=dict(stream=stream, pause_after_character=k, pause_length='until %s' % rep.get('timers'), observed=ev[:8], expected=exp[:8]))
+                return
+    ctx.ok('C20.c', 'pauses', '%d pauses inside commands: %d are fixpoints of the waiting state (one idle edge changes no state and no output, so every longer pause is the same state); '
+           'the others were continued from every timer threshold and decode the same' % (npause, nfix), grade='pass' if nfix == npause else 'bounded')
     ctx.ok('C20.a', 'decoder', '%d (stream, pacing) runs: every character consumed once; action pulses and numbers equal the stream meaning; strobes last one cycle' % n, grade='bounded')
     ctx.sample(dict(rule='C20.a', stream='IA=BEEF!O3?K2;', expected=meaning('IA=BEEF!O3?K2;', 16)))
 
 
-def run_encoder(facts, summaries, value, digits, pattern, maxcycles=600):
+def run_encoder(facts, summaries, value, digits, pattern, maxcycles=600, hold=True):
     D = Design(facts, summaries)
     vin, size, start, ready, valid, v = D.wire('vin', 40), D.wire('size', 8), D.wire('start_resp'), D.wire('ready'), D.wire('valid'), D.wire('v', 8)
     D.make('CMDResponse', 'resp', vin, size, start, ready, valid, v, rel=REL)
@@ -160,8 +247,10 @@ def run_encoder(facts, summaries, value, digits, pattern, maxcycles=600):
         t += 1
         # value and size become valid in the very cycle the request is raised (as in the wrapper, where the strobe that selects the
         # output also starts the response); before that the inputs carry something else
-        D.put(vin, value if t >= 2 else (value ^ 0x5A5A5A5A5) & ((1 << 40) - 1))
-        D.put(size, digits if t >= 2 else (digits % 7) + 1)
+        # hold=False: the selected value is only there in the request cycle; the design under test moves on while a slow consumer drains
+        here = (t >= 2) if hold else (t == 2)
+        D.put(vin, value if here else (value ^ 0x5A5A5A5A5 ^ (t * 0x111)) & ((1 << 40) - 1))
+        D.put(size, digits if here else (digits % 7) + 1)
         D.put(start, 1 if t == 2 else 0)
         D.put(ready, pattern(t))
         D.settle()
@@ -205,6 +294,16 @@ def check_encoder(ctx, facts, tier, seed):
                 ctx.violation('C20.b', 'response-text', 'the characters handed over differ from "=" <hex digits MSB first> "!"', where,
                               witness=dict(value=hex(value), digits=digits, consumer=pname, transferred=got, expected=exp))
                 return
+            try:
+                got = run_encoder(facts, summaries, value, digits, pat, hold=False)
+            except (EvalError, Nondet, NetError) as e:
+                got = 'fails: %s' % e
+            n += 1
+            if got != exp:
+                ctx.violation('C20.b', 'response-value-latched', 'the response does not carry the value selected when it was requested: value and digit count change '
+                              'while the consumer is still draining the response', where,
+                              witness=dict(value_in_request_cycle=hex(value), digits=digits, consumer=pname, transferred=got, expected=exp))
+                return
         ctx.ok('C20.b', 'value:%s/%d' % (hex(value), digits), '%d consumer pacings: %s' % (len(pats), exp), grade='bounded')
     ctx.ok('C20.b', 'encoder', '%d (value, digits, consumer pacing) runs: transferred text equals = <upper-case hex, MSB first> !' % n, grade='bounded')
     ctx.sample(dict(rule='C20.b', value='0x1234ABCD', digits=9, expected='=01234ABCD!'))
@@ -212,6 +311,7 @@ def check_encoder(ctx, facts, tier, seed):
 
 def run(ctx, sm, facts):
     ctx.rule('C20.a', 'decoder co-simulated with a ready/valid producer over command streams x pacings: actions == stream meaning')
+    ctx.rule('C20.c', 'pauses of any length inside a command: the waiting state is a fixpoint of an idle edge, or every timer threshold reachable by waiting decodes the same')
     ctx.rule('C20.b', 'encoder co-simulated with a ready/valid consumer over values x digit counts x pacings: text == =<HEX>!')
     for cn in ('CMDRequest', 'CMDResponse'):
         c = facts.cls(cn, REL, required=False)
